@@ -1039,7 +1039,7 @@ func C01(t Tier) int {
 
 func C02(t Tier) int {
 	run := report.NewRun("C02", t.Name, "model_checking", "E1+E2")
-	v := aolVariant{ID: "C02", Forged: true, OwnACL: true, Ctl: []string{"NB"}}
+	v := aolVariant{ID: "C02", Forged: true, OwnACL: true, Ctl: []string{"NB", "XI"}} // XI: the writer list must not change through an export/import either
 	sys := aolSystem(v)
 	dl := deadline(t, 120*time.Second, 15*time.Minute)
 	bounds := []explore.Bounds{{Depth: 4, V: 1, Deadline: dl}, {Depth: 5, V: 1, Deadline: dl}}
